@@ -1,5 +1,48 @@
-(* Properties/C17.v — plain graph.  Statements only. *)
-From Verif Require Import Base.Str Model.WGraph Model.PGraph.
+(* Properties/C17.v — plain graph: reversible, stable, dual paths.  Statements only; proofs in
+   Proofs/PGraphProofs.v.  [pbuild] and [reversed] transcribe graph_builder.go and Reversed() (after the
+   repair F7) over a model of gonum's multigraph with sequential IDs (Model/PGraph.v). *)
+From Coq Require Import Permutation.
+From Verif Require Import Base.Str Model.Ast Model.WGraph Model.PGraph Proofs.PGraphProofs.
 
-Theorem C17_reverse_keeps_nodes : forall g, pg_nodes (reversed g) = pg_nodes g /\ pg_listobjects (reversed g) = negb (pg_listobjects g).
+(* 1. reversing keeps the nodes (IDs and labels) and negates the drawing direction, for every graph *)
+Theorem C17_reverse_keeps_nodes : forall g,
+  pg_nodes (reversed g) = pg_nodes g /\ pg_listobjects (reversed g) = negb (pg_listobjects g).
 Proof. intros; split; reflexivity. Qed.
+
+(* 2. and its lines are exactly the flipped lines (kind, tupleset label and conditions untouched), for every graph *)
+Theorem C17_reverse_flips_every_line : forall g,
+  Permutation (map no_id (pg_lines (reversed g))) (map (fun l => no_id (flip l)) (pg_lines g)).
+Proof. exact reversed_lines_perm. Qed.
+
+(* 3. every graph the builder makes has line IDs 0,1,2,... in insertion order, for every model ... *)
+Theorem C17_builder_ids : forall m, ids_sequential (pbuild m).
+Proof. exact pbuild_ids_sequential. Qed.
+
+(* ... and on such graphs Reversed() flips every line in place, so reversing twice gives back the identical
+   graph — hence the identical DOT rendering — whatever the model *)
+Theorem C17_involution : forall m, reversed (reversed (pbuild m)) = pbuild m.
+Proof. exact pbuild_reverse_twice. Qed.
+Theorem C17_dot_after_double_reversal : forall m, dot_lines (reversed (reversed (pbuild m))) = dot_lines (pbuild m).
+Proof. intros m. rewrite pbuild_reverse_twice. reflexivity. Qed.
+
+(* 4. a path leads from a to b in the graph exactly when one leads from b to a in the reversed graph *)
+Theorem C17_path_duality : forall m x y,
+  path (pg_lines (pbuild m)) x y <-> path (pg_lines (reversed (pbuild m))) y x.
+Proof. exact pbuild_path_duality. Qed.
+
+(* 5. the DOT content is a function of the model alone: [pbuild] takes no ULID supply and no iteration order
+      (operator nodes are labelled by their operator; their unique labels never reach the DOT content) *)
+Theorem C17_dot_is_a_function_of_the_model : forall m m', m = m' -> dot_lines (pbuild m) = dot_lines (pbuild m').
+Proof. intros; subst; reflexivity. Qed.
+
+(* non-vacuity: a model with a direct and a tuple-to-userset line between the same two nodes (parallel lines) *)
+Example C17_parallel_lines :
+  let refs := [{| rr_type := lit "doc"; rr_kind := RRel (lit "v"); rr_cond := [] |}] in
+  let td := {| td_name := lit "doc";
+               td_rels := [(lit "p", UThis ThisEmpty); (lit "v", UUnion [UThis ThisEmpty; UTTU (lit "p") (lit "v")])];
+               td_meta := Some {| tm_rels := [(lit "p", {| rm_types := [{| rr_type := lit "doc"; rr_kind := RPlain; rr_cond := [] |}]; rm_module := []; rm_file := None |});
+                                              (lit "v", {| rm_types := refs; rm_module := []; rm_file := None |})];
+                                  tm_module := []; tm_file := None |} |} in
+  let g := pbuild {| m_schema := lit "1.1"; m_types := [td]; m_conds := [] |} in
+  length (pg_lines g) = 4%nat /\ reversed (reversed g) = g.
+Proof. split; vm_compute; reflexivity. Qed.
